@@ -35,7 +35,7 @@ class Obligation:
 
 
 import re as _re
-_SPLICE_SUFFIX = _re.compile(r"§[A-Za-z_][A-Za-z_0-9]*")
+_SPLICE_SUFFIX = _re.compile(r"§[A-Za-z_][A-Za-z_0-9]*(§[0-9]+)?")
 
 
 class Collector:
